@@ -11,8 +11,11 @@ def load_claimed():
     import importlib, sys, glob
     sys.path.insert(0, HERE)
     res = dict(CLAIMED)
+    allow = {l.strip() for l in open(os.path.join(HERE, "claimed.txt")) if l.strip() and not l.startswith("#")}
     for f in sorted(glob.glob(os.path.join(HERE, "props", "c*.py"))):
         pid = os.path.basename(f)[:-3].upper()
+        if pid not in allow:
+            continue
         try:
             mod = importlib.import_module("props." + pid.lower())
         except Exception as e:
